@@ -45,13 +45,18 @@ RULE = (
     'reference, environments), DOSINI package (4 platform files, 3 stage files, 3 variables.d files), DOSINI package of '
     'components with exactly 3 (thorough: also 4) parser-known options covering every group of options folded into one '
     'FlowIR dictionary, DSL consumers with 2-3 (thorough 4) distinct OutputReferences, packages with 2-3 (thorough 4) '
-    'distinct backends, a broken FlowIR package, three small "layering" packages (FlowIR, DSL, DOSINI). Entry points: '
+    'distinct backends, a broken FlowIR package, three small "layering" packages (FlowIR, DSL, DOSINI), package '
+    'directories readable in several formats (one workflow hand-written as dosini+flowir, dsl+flowir, dosini+dsl, '
+    'dosini+dsl+flowir, each representation echoing its format name; and DSL / DOSINI packages after a first load '
+    'with updateInstanceFiles=True stored their FlowIR translation; with and without a user variable file; cwl is '
+    'left out). Entry points: '
     'exp = packageFromLocation+Experiment.experimentFromPackage+validateExperiment, conf = '
     'ExperimentConfigurationFactory.configurationForExperiment(primitive=False)+WorkflowGraph, graph = '
     'packageFromLocation+WorkflowGraph.graphFromPackage (parametrize). '
     'HASH: every base task in 16 processes with PYTHONHASHSEED 0..15 (+1 process whose seed rotates with VERIF_SEED); '
     'then for every identified small set (set(variable_files) per ordered file list, set(options)&known per DOSINI '
-    'component, OutputReference sets per DSL consumer, set(backends) per graph; 2-3 elements, thorough 2-4) seeds are '
+    'component, OutputReference sets per DSL consumer, set(backends) per graph, the set of format-priority names '
+    'projected on the formats present in a multi-format directory; 2-3 elements, thorough 2-4) seeds are '
     'searched (cheap probe interpreters predict, real children confirm by reporting the order they saw) until EVERY '
     'permutation of its iteration order has been witnessed in a real child that loaded the package. '
     'VARFILES: every ordered selection of 1,2,3 of 3 files (thorough: 1..4 of 4; .yaml/.yml/.conf formats; every file '
@@ -84,6 +89,9 @@ ASSUMPTIONS = [
     'folders, manifest, active backends (sorted), replicated and unreplicated FlowIR, and for exp the parsed '
     'conf/flowir_instance.yaml, input/variables.yaml and the instance top level; absolute paths of the private instance '
     '/ package copy are replaced by placeholders; lists inside the dump are compared in order',
+    'the format-priority witness is hypothetical on a tree where get_config_parser walks an ordered list: it reports '
+    'how a set of the priority names iterates in the process, so that every relative order of the formats present in '
+    'a directory is known to have been available to any set-typed traversal',
     'identified sets are those found by reading the four anchored files; anything not identified is covered only by '
     'the fixed 16(+1)-seed sweep, the 24 listing permutations and the key orders (not exhaustive for unknown sets)',
     'a witness is computed in the child, next to the product call, by evaluating the same set expression on the actual '
@@ -598,7 +606,8 @@ def _run(ctx, root, slot):
                      % (sid, seen, poss, len(planned_total)))
     ctx.note('INFO: iteration orders witnessed/possible per identified set kind: ' + ', '.join(
         '%s %d/%d (%d sets)' % (sid, summ[sid][1], summ[sid][2], summ[sid][0]) for sid in sorted(summ)))
-    for must in ('conf.variable_files', 'dosini.component_options', 'dsl.output_references', 'graph.active_backends'):
+    for must in ('conf.variable_files', 'dosini.component_options', 'dsl.output_references', 'graph.active_backends',
+                 'conf.format_priority'):
         if must not in summ:
             raise HarnessError('no witness at all for identified set %s (recorder no longer reaches the product code?)' % must)
     for k in ('listdir', 'scandir', 'glob'):
